@@ -391,6 +391,34 @@ fn check_hist(c: &HistCase) -> CheckResult {
     Ok(out)
 }
 
+pub fn decode_trace(d: &mut crate::dec::Dec) -> crate::props::c12::TraceCase {
+    let gaps = d.vec(1, 23, |d| match d.pick(5) {
+        0 => 0,
+        1 | 2 => d.range(1, 3),
+        _ => d.range(1, 40),
+    });
+    let mut t = d.range(0, 49);
+    let mut trace = vec![t];
+    for g in gaps {
+        t += g;
+        trace.push(t);
+    }
+    crate::props::c12::TraceCase { trace, prefix_jobs: d.range(1, 8) as usize, extrapolating: d.flag() }
+}
+
+pub fn decode_hist(d: &mut crate::dec::Dec) -> HistCase {
+    use crate::dec::*;
+    let sa = d.byte() % 4 != 0;
+    let dmin = dec_dmin(d, 25, sa);
+    let ops = d.vec(1, 5, |d| match d.pick(8) {
+        0 | 1 | 2 => HOp::Query(d.range(0, 299)),
+        3 | 4 => HOp::Horizon(d.range(0, 399)),
+        _ => HOp::Steps(d.pick(24)),
+    });
+    let seqs = d.vec(1, 2, |d| d.vec(0, 16, |d| ((d.byte() as u16) << 8) | d.byte() as u16));
+    HistCase { dmin, ops, seqs }
+}
+
 /// exhaustive stage over a tiny parameter grid (same models as C11's exhaustive stage)
 fn exhaustive(tier: Tier, _seed: u64) -> ExtraResult {
     let mut r = ExtraResult { exhaustive: true, replay_subcheck: "sequences", ..Default::default() };
@@ -502,8 +530,8 @@ pub fn def() -> PropertyDef {
         subchecks: vec![
             subcheck("sequences", (12_000, 200_000), strategy, check).with_decoder(decode, check),
             subcheck("scale-invariance", (4000, 100_000), scale_strategy, check_scale),
-            subcheck("recorded-trace", (6000, 100_000), crate::props::c12::trace_strategy, check_recorded_trace),
-            subcheck("curve-history", (4000, 80_000), hist_strategy, check_hist),
+            subcheck("recorded-trace", (6000, 100_000), crate::props::c12::trace_strategy, check_recorded_trace).with_decoder(decode_trace, check_recorded_trace),
+            subcheck("curve-history", (4000, 80_000), hist_strategy, check_hist).with_decoder(decode_hist, check_hist),
         ],
         extra: Some(Box::new(exhaustive)),
     }
